@@ -21,6 +21,9 @@ import (
 var jopNames = []string{"rsv", "vsv", "irvv", "irvr", "ivvv", "ivvr", "vv", "vr"}
 var jopArity = []int{3, 4, 6, 5, 6, 5, 4, 2}
 
+// workK: the "fixed multiple" of C20 used by the search (generous: the EVM's own schedule gives 800 gas ≤ 8 warm reads)
+const workK = 16
+
 // countingDB counts storage reads (C20) on top of the real StateDB.
 type countingDB struct {
 	*state.StateDB
@@ -205,6 +208,32 @@ func runJCase(c *jcase, em *Emitter, tags string, queries func(t *vm.Tracer, q f
 			eff := fmt.Sprintf("pops=%d memdelta=%d cost=%d pcdelta=%d rdata=%v", s.stackLen-n.stackLen, n.memLen-s.memLen, s.cost, n.pc-s.pc, s.rdata == n.rdata)
 			em.Op("C12", "S jeffect "+jopNames[in.op], eff)
 			em.Op("C20", "W", fmt.Sprintf("reads=%d", n.reads0-s.reads0))
+			// C20 specification: the work of one instruction (32 units per storage read, 1 per byte copied into the
+			// tracer) stays within workK times the flat fee
+			reads := n.reads0 - s.reads0
+			units := 32 * reads
+			switch in.op {
+			case 0, 1, 2, 3: // name / index key copied from memory
+				pi := 0
+				if in.op >= 2 {
+					pi = 2
+				}
+				if in.args[pi].IsUint64() {
+					pm := pad32(c.mem)
+					if p := in.args[pi].Uint64(); p+32 <= uint64(len(pm)) {
+						units += 32 + int(new(uint256.Int).SetBytes(pm[p:p+32]).Uint64())
+					}
+				}
+			case 7:
+				if reads > 1 {
+					units += 32 * (reads - 1)
+				}
+			}
+			wb := "ok"
+			if units > workK*800 {
+				wb = fmt.Sprintf("exceeds:units=%d", units)
+			}
+			em.Op("C20", "S workbound "+jopNames[in.op], wb)
 		}
 	}
 	if panicked != "" && len(jsteps) == 0 {
@@ -639,5 +668,29 @@ func driveJournal(seed uint64, n int, size int, em *Emitter, exhaustive bool) {
 		}
 		st[slot.Bytes32()] = w.Bytes32()
 		specStringCase(r, em, slot, st, forks[r.Intn(len(forks))], "invalid")
+	}
+	// (D) C20: length fields far larger than the flat fee pays for
+	exps := []uint{10, 12, 14, 16}
+	if exhaustive {
+		exps = append(exps, 18, 20)
+	}
+	for _, e := range exps {
+		n := uint64(1) << e
+		em.Reset(fmt.Sprintf("journal-work-vr-2^%d", e))
+		slot, typ := uint256.NewInt(3), uint256.NewInt(9)
+		c := &jcase{fork: "London", storage: map[common.Hash]common.Hash{slot.Bytes32(): uint256.NewInt(2*n + 1).Bytes32()}}
+		lw := uint256.NewInt(1).Bytes32()
+		c.mem = append(lw[:], 's')
+		c.ops = []jinstr{{0, []*uint256.Int{uint256.NewInt(0), slot, typ}}, {7, []*uint256.Int{slot, typ}}}
+		runJCase(c, em, "C20,C03", nil)
+		em.Count(fmt.Sprintf("work-vr:2^%d", e))
+
+		em.Reset(fmt.Sprintf("journal-work-rsv-2^%d", e))
+		c = &jcase{fork: "London", storage: map[common.Hash]common.Hash{}}
+		lw = uint256.NewInt(n).Bytes32()
+		c.mem = append(lw[:], make([]byte, n)...)
+		c.ops = []jinstr{{0, []*uint256.Int{uint256.NewInt(0), slot, typ}}}
+		runJCase(c, em, "C20,C03", nil)
+		em.Count(fmt.Sprintf("work-rsv:2^%d", e))
 	}
 }
